@@ -65,6 +65,16 @@ Theorem C12_root_mode_prefix_refuted :
 Proof. exact root_mode_refuted. Qed.
 Print Assumptions C12_root_mode_prefix_refuted.
 
+(* Before the fix of tarDirectory, Add of a path that is a symbolic link to a directory
+   archived the link itself (filepath.Walk does not follow a link root): the single entry
+   [entries pre repro [] (Link tg mt)], which can never be unpacked.
+   Finding "added-symlink-archived-as-link", fixed in the repository (the root is resolved). *)
+Theorem C12_symlinked_root_prefix_refuted :
+  forall pre umask preserve repro tg mt f,
+    extract pre umask preserve (entries pre repro [] (Link tg mt)) <> Ok f.
+Proof. exact symlinked_root_prefix_refuted. Qed.
+Print Assumptions C12_symlinked_root_prefix_refuted.
+
 (* Before the fix, PreservePermissions lost setuid/setgid/sticky (a 01777 directory came back
    0777): os.Chmod(path, os.FileMode(header.Mode)) passes only the permission bits.
    Finding "preserve-special-bits", fixed in the repository; [modes_okb] admits 07777 for files
